@@ -45,6 +45,7 @@ VARIABLES
     holder,      \* "none" | "exec" | "map": another process executes / has mapped the prior output
     faultAt,     \* phase name at whose fault point a fault fires, or "none"
     faultKind,
+    reapable,    \* FALSE: the caller runs wild with SIGCHLD ignored, so waitpid() on the worker fails (ECHILD)
     changeAt,    \* an input file is modified just after the worker passed this point ("none": never)
     changed,     \* an input that was read has been modified since it was opened
     \* ---- worker ----
@@ -66,9 +67,9 @@ VARIABLES
     held,        \* tokens held by the worker
     threads      \* worker threads in use (0 before the pool exists)
 
-vars == <<fork, multi, prior, shared, wopt, mmapOut, holder, faultAt, faultKind, changeAt, changed, wph, wstate, wexit, creator,
+vars == <<fork, multi, prior, shared, wopt, mmapOut, holder, faultAt, faultKind, reapable, changeAt, changed, wph, wstate, wexit, creator,
           outClass, outInode, oldInodeWritten, sibling, temp, pipe, pexit, tokens, held, threads>>
-scenario == <<fork, multi, prior, shared, wopt, mmapOut, holder, faultAt, faultKind, changeAt>>
+scenario == <<fork, multi, prior, shared, wopt, mmapOut, holder, faultAt, faultKind, reapable, changeAt>>
 
 (* default_file_write_mode *)
 WriteMode ==
@@ -86,6 +87,8 @@ Init ==
     /\ changeAt \in {Phases[i] : i \in 2..PhaseIdx("written")} \cup {"none"}
     /\ (changeAt # "none" => faultAt = "none")
     /\ changed = FALSE
+    /\ reapable \in BOOLEAN
+    /\ (~reapable => (fork /\ holder = "none" /\ changeAt = "none" /\ prior = "absent" /\ wopt = "default"))
     /\ faultAt \in {Phases[i] : i \in 2..(NPh - 1)} \cup {"none"}
     /\ faultKind \in FaultKinds
     /\ (faultAt = "none" => faultKind = "error")
@@ -239,7 +242,9 @@ ParentDecide ==
     /\ fork /\ pexit = -1
     /\ \/ /\ pipe = "byte" /\ pexit' = 0
        \/ /\ pipe = "closed" /\ wstate = "exited"
-          /\ pexit' = IF wexit >= 128 /\ ~CheckSignaled THEN 0 ELSE wexit
+          \* no success byte and no status to be had (waitpid failed): that is a failure too
+          /\ pexit' = IF ~reapable THEN 1
+                      ELSE IF wexit >= 128 /\ ~CheckSignaled THEN 0 ELSE wexit
     /\ UNCHANGED <<scenario, changed, wph, wstate, wexit, creator, outClass, outInode, oldInodeWritten, sibling, temp,
                    pipe, tokens, held, threads>>
 
